@@ -261,8 +261,8 @@ def run(ctx):
         "and Python templates is rendered (Jinja expressions as placeholders) and scanned for ordering and pairing: "
         "exhaustive, closed kind dispatch against the installed pydsdl hierarchy; reject-before-emit for array lengths "
         "and union tags; checked results of every fallible support call; one cursor advance per primitive emitter, "
-        "after the write, by the type's own bit length.  Bit-exact packing, saturation arithmetic and NaN handling are "
-        "numerical results over all values and offsets and are not decided."
+        "after the write, by the type's own bit length.  Bit-exact packing and saturation arithmetic are "
+        "numerical results over all values and offsets and are not decided (that non-finite floats bypass the clamp is)."
     )
     ctx.declined = ["bit-exact little-endian packing, saturation/truncation arithmetic, NaN/inf handling, padding values (numerical over all values x bit offsets)"]
     ts = j2front.TemplateSet(ctx.root)
@@ -274,5 +274,7 @@ def run(ctx):
     _codec.rule_zero_cost(ctx, pyfront.PyIndex(ctx.root), "R-C01-ZEROCOST")
     _codec.rule_std_width(ctx, pyfront.PyIndex(ctx.root), "R-C01-STDWIDTH")
     _codec.rule_sat_use(ctx, cd, "R-C01-SAT-USE")
+    _codec.rule_float_sat(ctx, cd, "R-C01-FLOAT-SAT")
     _codec.rule_offset_sets(ctx, cd, "ser", "R-C01-OFFSET-SET")
     _codec.rule_padding(ctx, cd, "ser", "R-C01-PADDING")
+    _codec.rule_pad_body(ctx, cd, "ser", "R-C01-PAD-BODY")
